@@ -31,6 +31,9 @@ UNITS += [
     U("rbt_lemma_insert_step", "rbt_lemma.c", "h_insert_step", level="L", functions=["a_rbt_insert_adjust", "a_rbt_set_parents", "a_rbt_set_parent_color"], min_obl=5, unwind=9,
       replay={"prog": "trees_search.c", "sources": ["rbt.c"], "mode": "rbt", "timeout": 600},
       defines=["LEMMA_INSERT"], cbmc=["--object-bits", "10"], solver="cadical", timeout=1200, key=["insert_adjust step \\(done\\)", "insert_adjust step \\(continue\\)"]),
+    U("rbt_lemma_unlink", "rbt_lemma.c", "h_unlink", level="L", functions=["a_rbt_remove", "a_rbt_new_child", "a_rbt_set_parent", "a_rbt_set_parent_color"], min_obl=5, unwind=9,
+      replay={"prog": "trees_search.c", "sources": ["rbt.c"], "mode": "rbt", "timeout": 600}, bound="successor at most 2 levels down the left spine of the right child (subtree sizes unbounded)",
+      defines=["LEMMA_UNLINK", "MAXDEPTH=2"], mem_gb=24, cbmc=["--object-bits", "10"], solver="cadical", timeout=1200, key=["remove \\(no fix-up needed\\)", "fix-up loop's invariant"]),
     U("rbt_packed_accessors", "trees.c", "h_packed", level="P", functions=["a_rbt_set_parent_color", "a_rbt_set_parent", "a_rbt_set_black", "a_rbt_parent", "a_rbt_color", "a_rbt_init"], replay=RP, min_obl=3, defines=["TREE_RBT", "D=2"], cbmc=["--object-bits", "10"]),
     T("rbt_insert_d2_packed", "h_insert", 2, tiers=("thorough",), functions=INS, timeout=1800, cost=100, mem_gb=40),
     T("rbt_remove_d2_packed", "h_remove", 2, tiers=("thorough",), functions=REM, timeout=1800, cost=100, mem_gb=40),
